@@ -118,11 +118,12 @@ pub fn run(v: &Value) -> Value {
         Some(d) => std::path::PathBuf::from(d),
         None => dir.path().join("db"),
     };
-    let rt = tokio::runtime::Builder::new_current_thread()
-        .enable_all()
-        .start_paused(true)
-        .build()
-        .unwrap();
+    // "threads": n runs on a multi-threaded runtime with the real clock (C10's soak); default: one
+    // thread and a paused clock
+    let rt = match v["threads"].as_u64() {
+        Some(n) => tokio::runtime::Builder::new_multi_thread().worker_threads(n as usize).enable_all().build().unwrap(),
+        None => tokio::runtime::Builder::new_current_thread().enable_all().start_paused(true).build().unwrap(),
+    };
     rt.block_on(async {
         let mut outs = vec![];
         // readers held open across steps (C08): name -> (transaction, iterator)
@@ -302,6 +303,71 @@ pub fn run(v: &Value) -> Value {
                     }
                 }
                 outs.push(json!({"slept": ms}));
+            } else if let Some(ss) = step["sessions"].as_array() {
+                // several sessions issue their statements concurrently on the one database
+                let Some(dbr) = db.as_ref() else {
+                    outs.push(json!({"err": "database is closed"}));
+                    continue;
+                };
+                let mut handles = vec![];
+                for sess in ss {
+                    let d = dbr.clone();
+                    let stmts: Vec<String> = sess.as_array().map(|a| a.iter().filter_map(|x| x.as_str().map(String::from)).collect()).unwrap_or_default();
+                    handles.push(tokio::spawn(async move {
+                        let mut res = vec![];
+                        for sql in stmts {
+                            let fut = std::panic::AssertUnwindSafe(d.run(&sql));
+                            res.push(match futures::FutureExt::catch_unwind(fut).await {
+                                Ok(Ok(chunks)) => json!({"ok": chunks_to_json(&chunks)}),
+                                Ok(Err(e)) => json!({"err": errstr(e)}),
+                                Err(p) => json!({"panic": panic_msg(p)}),
+                            });
+                            tokio::task::yield_now().await;
+                        }
+                        Value::Array(res)
+                    }));
+                }
+                // "compactor_ticks": n lets the background compactor / vacuum run n passes WHILE the sessions run
+                // (paused clock: the clock is advanced by a helper task)
+                let ticks = step["compactor_ticks"].as_u64().unwrap_or(0);
+                let ticker = if ticks > 0 && atomic {
+                    Some(tokio::spawn(async move {
+                        for _ in 0..ticks {
+                            for _ in 0..8 {
+                                tokio::task::yield_now().await;
+                            }
+                            tokio::time::advance(std::time::Duration::from_millis(1000)).await;
+                        }
+                    }))
+                } else {
+                    None
+                };
+                let t0 = std::time::Instant::now();
+                let limit = step["timeout_ms"].as_u64().unwrap_or(20000) as u128;
+                while !handles.iter().all(|h| h.is_finished()) && t0.elapsed().as_millis() < limit {
+                    tokio::task::yield_now().await;
+                    if !atomic {
+                        tokio::time::sleep(std::time::Duration::from_millis(1)).await;
+                    }
+                }
+                let mut all = vec![];
+                for h in handles {
+                    if h.is_finished() {
+                        all.push(h.await.unwrap_or_else(|e| json!({"panic": format!("task: {e}")})));
+                    } else {
+                        h.abort();
+                        all.push(json!({"deadlock": true}));
+                    }
+                }
+                if let Some(t) = ticker {
+                    t.abort();
+                }
+                if atomic {
+                    if let Some(d) = db.as_ref() {
+                        settle(d).await;
+                    }
+                }
+                outs.push(json!({"sessions": all}));
             } else if let Some(g) = step.get("gate") {
                 // hold background tasks at the schedule points with these name prefixes
                 let prefixes = g.as_array().map(|a| a.iter().filter_map(|x| x.as_str().map(String::from)).collect()).unwrap_or_default();
